@@ -10,6 +10,7 @@ package main
 
 import (
 	"go/ast"
+	"strings"
 	"go/types"
 )
 
@@ -46,6 +47,39 @@ func exactPrinters(w *World) map[*types.Func]bool {
 func constExactRule(w *World, r *Result, only func(rel string) bool) (printers, uses int) {
 	exact := exactPrinters(w)
 	printers = len(exact)
+	// inside an exact printer every result is the full-precision float form or ExactString of the value itself
+	for fn := range exact {
+		fi := w.Funcs[fn]
+		info := fi.Pkg.TypesInfo
+		ast.Inspect(fi.Decl.Body, func(x ast.Node) bool {
+			ret, ok := x.(*ast.ReturnStmt)
+			if !ok || len(ret.Results) != 1 {
+				return true
+			}
+			call, isCall := ast.Unparen(ret.Results[0]).(*ast.CallExpr)
+			good, why := false, "the exact printer returns `"+es(ret.Results[0])+"`, which is neither strconv.FormatFloat(f, fmt, -1, 64) nor ExactString() of the value"
+			if isCall {
+				switch fullName(calleeOf(info, call)) {
+				case "strconv.FormatFloat":
+					if len(call.Args) == 4 {
+						prec, okp := constInt(info, call.Args[2])
+						bits, okb := constInt(info, call.Args[3])
+						good = okp && okb && prec == -1 && bits == 64
+						if !good {
+							why = "a float constant is formatted with precision/bit size other than -1/64: the literal is rounded (to float32: about 7 digits), so it is not the value Go emits"
+						}
+					}
+				case "(go/constant.Value).ExactString":
+					good = true
+				}
+			}
+			if !good && isCall && strings.HasPrefix(fullName(calleeOf(info, call)), "strconv.Quote") {
+				why = "string constants are re-quoted with " + fullName(calleeOf(info, call)) + " instead of ExactString(): escapes such as \\u00e9 are Go syntax, which SQL reads literally, so the literal is not the constant's value"
+			}
+			r.cond(good, "CONST-EXACT", fi.Name, "return "+es(ret.Results[0]), w.Pos(ret.Pos()), "exact form", why)
+			return true
+		})
+	}
 	for _, fi := range sortedFuncs(w) {
 		if fi.Decl.Body == nil || (only != nil && !only(w.Rel(fi.Obj.Pkg()))) {
 			continue
